@@ -1301,6 +1301,17 @@ func ruleNoSilent200(c *Ctx, id string, rels []string, keep func(f *Func) bool, 
 											replayDone = true
 										}
 									}
+									// the same test written out: len(s.requests) == 0
+									ast.Inspect(ce, func(n ast.Node) bool {
+										if x, y, op, ok := binaryCmp2(n); ok && op == token.EQL {
+											if lc, isC := ast.Unparen(x).(*ast.CallExpr); isC && f.BuiltinName(lc) == "len" && len(lc.Args) == 1 && strings.HasSuffix(f.FieldPath(lc.Args[0]), "stream.requests") {
+												if z, isZ := f.ConstInt(y); isZ && z == 0 {
+													replayDone = true
+												}
+											}
+										}
+										return true
+									})
 								}
 							}
 							if replayDone {
